@@ -162,6 +162,11 @@ t("C15", "padding-terminator-left-in-output", TI, "\t\ts = s[end+1:]", "\t\ts = 
 t("C15", "offset32-cup-swapped", "terminfo/v/vt52/term.go", "%p1%' '%+%c%p2%' '%+%c", "%p2%' '%+%c%p1%' '%+%c", "vt52:cup-convention")
 t("C15", "bright-colours-wrong-base-256", "terminfo/x/xterm/term.go", "\t\tName:         \"xterm-88color\",", "\t\tName:         \"xterm-88color\",\n\t\tStrikeThrough: \"\\x1b[9m\",", "zzz-benign")
 
+t("C15", "mandatory-padding-flag-unrecognised", TI, "\t\t\tcase '*', '/':", "\t\t\tcase '*':", "grammar:alphabet")
+t("C15", "ill-formed-padding-stripped", TI, "\t\t\t_, _ = io.WriteString(w, \"$<\")\n\t\t\tcontinue", "\t\t\ts = s[end+1:]\n\t\t\tcontinue", "ill-formed-kept")
+t("C15", "padding-without-number-accepted", TI, "\t\tif !valid || !digits {", "\t\tif !valid || (!digits && len(val) > 3) {", "well-formed-only")
+t("C09", "database-padding-flag-leaks", TI, "\t\t\tcase '*', '/':", "\t\t\tcase '*':", "database-padding-recognised")
+
 # ---------------------------------------------------------------- C16
 COL = "color.go"
 t("C16", "palette-value-typo", COL, "\tColorMaroon:               0x800000,", "\tColorMaroon:               0x800001,", "palette[1]")
